@@ -55,7 +55,8 @@ def projPts (a k : Int) (lim : Option Nat) (t : Pts) : Pts :=
 
 structure AccA where
   e : AffS
-  proj : Bool                 -- is a `project(..., interval=(0, extent))` emitted (anything but a plain variable)
+  proj : Bool                 -- is a `project(...)` emitted (anything but a plain variable)
+  ivl : Bool := proj          -- does the projection carry `interval=(0, extent)` (absent on the upper level of a partitioned rank)
   deriving Repr
 
 def AccA.subst (r : String) (c : Nat) (a : AccA) : AccA := { a with e := a.e.subst r c }
@@ -74,7 +75,7 @@ def OperandA.activeAt (r : String) (o : OperandA) : Bool :=
 def OperandA.view (r : String) (ext : Nat) (o : OperandA) : Operand :=
   match o.idx with
   | a :: _ =>
-    if a.e.readyAt r then { sched := [true], pts := projPts (a.e.coef r) a.e.const (if a.proj then some ext else none) o.pts }
+    if a.e.readyAt r then { sched := [true], pts := projPts (a.e.coef r) a.e.const (if a.ivl then some ext else none) o.pts }
     else { sched := [false], pts := o.pts }
   | [] => { sched := [false], pts := o.pts }
 
